@@ -7,6 +7,9 @@ Line protocol for the ascii-map model.
   read  KIND [[t,t,..],[..],..]      text lines top to bottom, tokens
   write KIND [i:j:tok,...]           indexed contents (insertion order)
   gridcontents KIND T|F [[..],..]    what GridBlueprint keeps of a lattice map (T: full domain; Cartesian full maps are centred)
+  dispatch GEOM DOMAIN               -> cart|third|full|tips|reject   (asciiMapFromGeomAndDomain on the geometry string)
+  savelattice GEOM DOMAIN [i:j:tok,..]  -> reject | [[..],..]   (saveToStream, tryMap)
+  readlattice GEOM DOMAIN [[..],..]     -> reject | [i:j:tok,..] (_readGridContentsLattice)
 KIND = cart | third | full | tips.  Answers:
   read  -> reject | labels=[i:j:tok,..sorted] offsets=[..] slot=N dims=maxCol,maxLine,ijMax,offCorner
   write -> reject | lines=[[..],..] offsets=[..] slot=N printable=T|F back=reject|[i:j:tok,..sorted]
@@ -52,6 +55,18 @@ def answer : List String → String
           "lines=" ++ showLines m.lines ++ " offsets=" ++ showList toString m.offsets ++ " slot=" ++ toString m.slot ++
             " printable=" ++ showBool (printable m) ++ " back=" ++ back
       | _, _ => "bad-op"
+  | ["dispatch", g, d] => match dispatch g d with
+      | some .cart => "cart" | some .third => "third" | some .full => "full" | some .tips => "tips" | none => "reject"
+  | ["savelattice", g, d, labels] => match parseList? parseLabel? labels with
+      | some labels => match saveLattice g d labels with
+        | none => "reject"
+        | some (_, lines) => showLines lines
+      | none => "bad-op"
+  | ["readlattice", g, d, lines] => match parseList? (parseList? some) lines with
+      | some lines => match readLattice g d lines with
+        | none => "reject"
+        | some l => showLabels l
+      | none => "bad-op"
   | _ => "bad-op"
 
 def main : IO Unit := loop answer
